@@ -330,7 +330,9 @@ func (e *endpointManager) addAliveEp(ep endpoint.Endpoint) {
 	e.activeEp = sortedEps
 	e.activeEpRoundRobin.Add(ep)
 	e.activeEpConHash.Add(ep)
-	e.activeEpModHash.Add(ep)
+	// mod-hash routes by position: keep the selector's list in the same canonical order as activeEp
+	// (and as a freshly refreshed client has), an Add would append the endpoint at the end
+	e.activeEpModHash.Refresh(sortedEps)
 	e.epLock.Unlock()
 }
 
